@@ -63,6 +63,64 @@ def make_simulator(prog, name="sim"):
     return S.DEVSSimulatorDuration(name, "s")
 
 
+_etype_counter = [0]
+
+
+def _stat_event_types(kind):
+    from pydsol.core.interfaces import StatEvents as E
+    common = [E.OBSERVATION_ADDED_EVENT, E.N_EVENT, E.INITIALIZED_EVENT]
+    if kind == "counter":
+        return common + [E.COUNT_EVENT]
+    if kind == "tally":
+        return common + [E.MIN_EVENT, E.MAX_EVENT, E.SUM_EVENT, E.MEAN_EVENT, E.POPULATION_STDEV_EVENT, E.POPULATION_VARIANCE_EVENT,
+                         E.POPULATION_SKEWNESS_EVENT, E.POPULATION_KURTOSIS_EVENT, E.POPULATION_EXCESS_K_EVENT, E.SAMPLE_STDEV_EVENT,
+                         E.SAMPLE_VARIANCE_EVENT, E.SAMPLE_SKEWNESS_EVENT, E.SAMPLE_KURTOSIS_EVENT, E.SAMPLE_EXCESS_K_EVENT]
+    return common + [E.MIN_EVENT, E.MAX_EVENT, E.WEIGHTED_SUM_EVENT, E.WEIGHTED_MEAN_EVENT, E.WEIGHTED_POPULATION_STDEV_EVENT,
+                     E.WEIGHTED_POPULATION_VARIANCE_EVENT, E.WEIGHTED_SAMPLE_STDEV_EVENT, E.WEIGHTED_SAMPLE_VARIANCE_EVENT]
+
+
+_GETTER_OF_EVENT = {
+    "N_EVENT": lambda s: s.n(), "COUNT_EVENT": lambda s: s.count(), "MIN_EVENT": lambda s: s.min(), "MAX_EVENT": lambda s: s.max(),
+    "SUM_EVENT": lambda s: s.sum(), "MEAN_EVENT": lambda s: s.mean(), "POPULATION_STDEV_EVENT": lambda s: s.stdev(),
+    "POPULATION_VARIANCE_EVENT": lambda s: s.variance(), "POPULATION_SKEWNESS_EVENT": lambda s: s.skewness(),
+    "POPULATION_KURTOSIS_EVENT": lambda s: s.kurtosis(), "POPULATION_EXCESS_K_EVENT": lambda s: s.excess_kurtosis(),
+    "SAMPLE_STDEV_EVENT": lambda s: s.stdev(False), "SAMPLE_VARIANCE_EVENT": lambda s: s.variance(False),
+    "SAMPLE_SKEWNESS_EVENT": lambda s: s.skewness(False), "SAMPLE_KURTOSIS_EVENT": lambda s: s.kurtosis(False),
+    "SAMPLE_EXCESS_K_EVENT": lambda s: s.excess_kurtosis(False), "WEIGHTED_SUM_EVENT": lambda s: s.weighted_sum(),
+    "WEIGHTED_MEAN_EVENT": lambda s: s.weighted_mean(), "WEIGHTED_POPULATION_STDEV_EVENT": lambda s: s.weighted_stdev(),
+    "WEIGHTED_POPULATION_VARIANCE_EVENT": lambda s: s.weighted_variance(), "WEIGHTED_SAMPLE_STDEV_EVENT": lambda s: s.weighted_stdev(False),
+    "WEIGHTED_SAMPLE_VARIANCE_EVENT": lambda s: s.weighted_variance(False),
+}
+
+
+def stat_getters(st):
+    """every public getter of a statistic as a canonical dict of hex floats (NaN-aware)"""
+    from vlib.base import fx
+    out = {}
+    names = ["n", "count", "min", "max", "sum", "mean", "weighted_sum", "weighted_mean"]
+    for nme in names:
+        if hasattr(st, nme):
+            try:
+                out[nme] = fx(getattr(st, nme)())
+            except Exception as e:
+                out[nme] = "raised:" + type(e).__name__
+    for nme in ("variance", "stdev", "skewness", "kurtosis", "excess_kurtosis", "weighted_variance", "weighted_stdev"):
+        if hasattr(st, nme):
+            for b in (True, False):
+                try:
+                    out[f"{nme}:{b}"] = fx(getattr(st, nme)(b))
+                except Exception as e:
+                    out[f"{nme}:{b}"] = "raised:" + type(e).__name__
+    if hasattr(st, "confidence_interval"):
+        try:
+            out["ci"] = fx(st.confidence_interval(0.05))
+        except Exception as e:
+            out["ci"] = "raised:" + type(e).__name__
+    if hasattr(st, "isactive"):
+        out["active"] = st.isactive()
+    return out
+
+
 class Runaway(Exception):
     """events were executed far more often than they were scheduled (emergency brake fired)"""
 
@@ -91,6 +149,11 @@ class Harness:
         self.gates = {}
         self.pause_at = None      # park the handler of the n-th executed model event (1-based, counted from arm time)
         self.pause_gate = None
+        self.timeline = []        # handler / notification / observation records in one global order
+        self.stats = {}           # key -> statistic object created in construct_model (latest replication)
+        self.streams = {}
+        self.producers = {}
+        self.published = []       # (key, event type name, payload, getter value inside the notification)
         self.exec_count = 0
         self.inits = 0
         self.runaway = False
@@ -100,9 +163,10 @@ class Harness:
         class ProgModel(DSOLModel):
             def construct_model(self):
                 h.inits += 1
+                h._construct_extras(self)
                 if h.on_construct:
                     h.on_construct(self)
-                h._actions(self, prog.get("init", []), None)
+                h._actions(self, h.prog.get("init", []), None)
 
             def h(self, tag):
                 sim = self.simulator
@@ -116,16 +180,18 @@ class Harness:
                     sim.eventlist().clear()
                     return
                 h.hlog.append((tag, float(t), type(t).__name__, ev.priority if ev is not None else None))
+                h.timeline.append(("h", tag, float(t), ev.priority if ev is not None else None))
                 if h.pause_at is not None and h.exec_count == h.pause_at:
                     g = h.pause_gate
                     g.reached.set()
                     g.open.wait(30)
-                h._actions(self, prog["handlers"].get(tag, []), tag)
+                h._actions(self, h.prog["handlers"].get(tag, []), tag)
 
         class Recorder(EventListener):
             def notify(self, event):
                 ts = getattr(event, "timestamp", None)
                 h.nlog.append((event.event_type.name, None if ts is None else float(ts), threading.current_thread().name))
+                h.timeline.append(("n", event.event_type.name, None if ts is None else float(ts)))
                 cb = h.on_notify
                 if cb:
                     cb(event.event_type.name, event)
@@ -200,8 +266,94 @@ class Harness:
                 g = self.gates.setdefault(a[1], Gate())
                 g.reached.set()
                 g.open.wait(30)
+            elif k == "obs":
+                self._observe(model, a)
+            elif k == "drawrel":
+                d = self._draw(a[1], a[2], a[3])
+                ev = sim.schedule_event_rel(time_value(self.prog, d) if self.prog["clock"] != "int" else int(d),
+                                            model, "h", a[4], tag=a[5])
+                self.events[a[5]] = ev
+            elif k == "fire":
+                self.producers[a[1]].fire(self.etypes[a[1]], a[2])
             elif self.on_action:
                 self.on_action(model, a, parent)
+
+    # ---------------------------------------------------------------- statistics / streams created by the model
+    def _construct_extras(self, model):
+        """what the documentation tells model authors to do in construct_model: (re)create streams and statistics"""
+        from pydsol.core import statistics as S
+        from pydsol.core.streams import MersenneTwister
+        from pydsol.core.pubsub import EventProducer, EventType, EventListener
+        from pydsol.core.interfaces import StatEvents
+        sim = model.simulator
+        self.streams = {sp["name"]: MersenneTwister(sp["seed"]) for sp in self.prog.get("streams", [])}
+        self.dists = {}
+        self.stats = {}
+        self.producers = {}
+        if not hasattr(self, "etypes"):
+            self.etypes = {}
+        h = self
+        for sp in self.prog.get("stats", []):
+            key, kind = sp["key"], sp["kind"]
+            cls = {"counter": S.SimCounter, "tally": S.SimTally, "wtally": S.SimWeightedTally, "persistent": S.SimPersistent}[kind]
+            if sp.get("via") == "event":
+                if key not in self.etypes:
+                    _etype_counter[0] += 1
+                    self.etypes[key] = EventType(f"verif_data_{_etype_counter[0]}")
+                prod = EventProducer()
+                self.producers[key] = prod
+                st = cls(key, "stat " + key, sim, producer=prod, event_type=self.etypes[key])
+            else:
+                st = cls(key, "stat " + key, sim)
+            self.stats[key] = st
+            if sp.get("watch"):
+                class Watch(EventListener):
+                    def __init__(self, key, st):
+                        self.key, self.st = key, st
+
+                    def notify(self, event):
+                        h._published(self.key, self.st, event)
+                wl = Watch(key, st)
+                for et in _stat_event_types(kind):
+                    st.add_listener(et, wl)
+
+    def _published(self, key, st, event):
+        name = event.event_type.name
+        getter = _GETTER_OF_EVENT.get(name)
+        val = None
+        if getter is not None:
+            try:
+                val = getter(st)
+            except Exception as e:
+                val = ("raised", type(e).__name__)
+        self.published.append((key, name, event.content, val, getattr(event, "timestamp", None)))
+
+    def _observe(self, model, a):
+        sim = model.simulator
+        key = a[1]
+        st = self.stats[key]
+        spec = next(sp for sp in self.prog["stats"] if sp["key"] == key)
+        kind = spec["kind"]
+        t = sim.simulator_time
+        self.timeline.append(("o", key, float(t), a[2:]))
+        if spec.get("via") == "event":
+            payload = a[2] if kind != "wtally" else (a[2], a[3])
+            self.producers[key].fire(self.etypes[key], payload)
+        elif kind == "wtally":
+            st.register(a[2], a[3])
+        elif kind == "persistent":
+            st.register(float(t), a[2])
+        else:
+            st.register(a[2])
+
+    def _draw(self, stream, dist, params):
+        from pydsol.core import distributions as D
+        dk = (stream, dist, tuple(params))
+        d = self.dists.get(dk)
+        if d is None:
+            d = getattr(D, dist)(self.streams[stream], *params)
+            self.dists[dk] = d
+        return d.draw()
 
     # ---------------------------------------------------------------- commands and observation
     def subscribe(self):
